@@ -226,11 +226,25 @@ class World:
 
 
 def model_obj(m, pre_tau, eps):
-    def wrap1(fn):
-        return ("py", lambda x, t: NumArr(list(fn(list(x), t))))
+    nS = len(m.x0)
+
+    def roles(name, x, t):
+        # the compiled evaluators take (state, time): a call with the two swapped evaluates the model at a wrong point (or fails)
+        if not (isinstance(x, (NumArr, list, tuple)) and len(x) == nS) or isinstance(t, (NumArr, list, tuple)) or isinstance(t, bool) or not isinstance(t, (int, float)):
+            raise Raised("TypeError(%s called with (%s, %s): the evaluators take (state, time))" % (name, type(x).__name__, type(t).__name__))
+
+    def wrap1(fn, name="evaluator"):
+        def ev(x, t):
+            roles(name, x, t)
+            return NumArr(list(fn(list(x), t)))
+        return ("py", ev)
+
+    def vmat(x, t):
+        roles("vMat", x, t)
+        return NumArr([list(r) for r in m.V])
     me = Obj("Model",
              _t0=F64(m.t0), _x0=NumArr(list(m.x0)), _state_lims=[tuple(l) for l in m.lims], _stochasticParam=None,
-             vMat=("py", lambda x, t: NumArr([list(r) for r in m.V])), eventRateVector=wrap1(m.rates_fn),
+             vMat=("py", vmat), eventRateVector=wrap1(m.rates_fn, "eventRateVector"),
              transitionMean=wrap1(m.mean_fn), transitionVar=wrap1(m.var_fn), pureOdeVector=wrap1(m.pure_fn),
              _epsilon=eps, pre_tau=pre_tau, _lambdaMat=None)
     return me
